@@ -84,7 +84,7 @@ theorem n_read (hl : s.LstS p0 a1 aN v) (hti : TI Lm tt rt s) {E : PyErr → Net
   obtain ⟨l1, f1⟩ := LstS_putDrv hl.mid (hk.isLst hl.2) hk.toFr
   obtain ⟨t1, t2⟩ := hti.putDrv ds (hp.adv hti.txs)
   unfold wp
-  rw [nexec_liftRf, hex]
+  rw [nexec_liftRf7, hex]
   apply hQ r _ l1 f1 t1 t2 hc
   · intro b hb
     rcases hr with hr | ⟨e, rest, he, hre, hrest⟩
